@@ -47,6 +47,8 @@ def p_expr(e, style=None):
   if k == 'field':
     return '%s.%s' % (p_expr(e[1], style), e[2])
   if k == 'if':
+    if len(e) > 4 and e[4] == 'chain' and e[3][0] == 'if':     # else-if chain: one implication with several branches
+      return '(if %s then %s else %s)' % (p_expr(e[1], style), p_expr(e[2], style), p_expr(e[3], style)[1:-1])
     return '(if %s then %s else %s)' % (p_expr(e[1], style), p_expr(e[2], style), p_expr(e[3], style))
   if k == 'neg':
     return '(-%s)' % p_expr(e[1], style)
@@ -374,6 +376,20 @@ class Gen:
     return d
 
   # --- expressions over bound variables
+  def if_of(self, ty, bound, depth):
+    """if-then-else; half of them an else-if chain, whose branches often repeat a value (also the else value)."""
+    r = self.r
+    c1, t1 = self.cond_of(bound, depth - 1), self.expr_of(ty, bound, depth - 1)
+    if r.random() < 0.5:
+      c2, t2 = self.cond_of(bound, depth - 1), self.expr_of(ty, bound, depth - 1)
+      k = r.random()
+      last = t1 if k < 0.4 else (t2 if k < 0.55 else self.expr_of(ty, bound, depth - 1))
+      if r.random() < 0.3:
+        c3 = self.cond_of(bound, depth - 1)
+        return ('if', c1, t1, ('if', c2, t2, ('if', c3, r.choice([t1, t2]), last, 'chain'), 'chain'), 'chain')
+      return ('if', c1, t1, ('if', c2, t2, last, 'chain'), 'chain')
+    return ('if', c1, t1, self.expr_of(ty, bound, depth - 1))
+
   def expr_of(self, ty, bound, depth=2):
     """bound: {var: type}.  Returns an expression of type ty over bound variables (may be a literal)."""
     r = self.r
@@ -394,7 +410,7 @@ class Gen:
       if k < 0.45:
         return ('bin', r.choice(['+', '-', '*']), self.expr_of('int', bound, depth - 1), self.expr_of('int', bound, depth - 1))
       if k < 0.6 and self.p('ifthenelse'):
-        return ('if', self.cond_of(bound, depth - 1), self.expr_of('int', bound, depth - 1), self.expr_of('int', bound, depth - 1))
+        return self.if_of('int', bound, depth)
       if k < 0.7 and self.p('builtins'):
         lists = [v for v, t in bound.items() if t == ('list', 'int')]
         if lists:
@@ -422,7 +438,7 @@ class Gen:
       if k < 0.4:
         return ('bin', '++', self.expr_of('str', bound, depth - 1), self.expr_of('str', bound, depth - 1))
       if k < 0.55 and self.p('ifthenelse'):
-        return ('if', self.cond_of(bound, depth - 1), self.expr_of('str', bound, depth - 1), self.expr_of('str', bound, depth - 1))
+        return self.if_of('str', bound, depth)
       if k < 0.7 and self.p('builtins'):
         return ('fun', 'ToString', [self.expr_of('int', bound, depth - 1)])
       return ('var', r.choice(cands)) if cands else self.lit('str')
@@ -582,6 +598,13 @@ class Gen:
     return cs, local
 
   def gen_negation(self, bound):
+    if self.r.random() < 0.2:   # double negation ~(~A): A as a filter (no multiplicity), not a join
+      if self.r.random() < 0.6:
+        newv = {}
+        cs = [self.gen_atom(self.r.choice(self.tables()), dict(bound), newv, force_link=True)]
+      else:
+        cs, _ = self.gen_inner(bound)
+      return ('not', [('not', cs)])
     cs, local = self.gen_inner(bound)
     if self.p('implication'):   # ~(A, ~B), printable as A => B
       cs2, _ = self.gen_inner(dict(bound, **local))
